@@ -36,6 +36,8 @@ def _fast_approx_rational(num, den, min_prec=0):
     # case, the minimal (v, p).
     if num == 0:
         return 0, min_prec, 0
+    if den == 0:
+        raise ValueError('math domain error')   # as the original (log10(0))
     if den < 0:
         num, den = -num, -den
     g = gcd(num, den)
